@@ -33,6 +33,14 @@ class Event:
         return getattr(self.node, 'lineno', 0)
 
 
+def _conjuncts(t):
+    for x in t[1]:
+        if x[0] == 'and':
+            yield from _conjuncts(x)
+        else:
+            yield x
+
+
 @dataclass
 class Path:
     env: dict = field(default_factory=dict)
@@ -47,8 +55,24 @@ class Path:
                     list(self.loops), dict(self.localfns), self.outcome)
 
     # convenience views
-    def conds(self):
-        return [e.term for e in self.events if e.kind == 'assume']
+    def conds(self, flat=False):
+        """the assumptions of the path; with ``flat`` a conjunction is followed by its conjuncts (``if not (a or b)`` assumes
+        not a, and not b)"""
+        out = []
+        for e in self.events:
+            if e.kind == 'assume':
+                out.append(e.term)
+                if flat and e.term[0] == 'and':
+                    out.extend(_conjuncts(e.term))
+        if flat:
+            # unit resolution: (a or b) together with not b gives a
+            known = {unversion(c) for c in out}
+            for c in list(out):
+                if c[0] == 'or':
+                    rest = [d for d in c[1] if T.mk_not(unversion(d)) not in known]
+                    if len(rest) == 1 and unversion(rest[0]) not in known:
+                        out.append(rest[0])
+        return out
 
     def writes(self):
         return [e for e in self.events if e.kind == 'write']
